@@ -280,7 +280,10 @@ impl Expr {
             UnOpKind::Not => (!res.as_integer()).into(),
             // Integer operations wrap around like the binary operators do.
             UnOpKind::Abs => apply_op!(wrapping_abs, abs),
-            UnOpKind::Sgn => apply_op!(signum, signum),
+            UnOpKind::Sgn => match res {
+                EvaluationResult::Integer(i) => i.signum().into(),
+                EvaluationResult::Float(f) => float_sgn(f).into(),
+            },
             UnOpKind::Neg => apply_op!(wrapping_neg, neg),
             UnOpKind::Sin => res.as_float().sin().into(),
             UnOpKind::Cos => res.as_float().cos().into(),
@@ -297,6 +300,19 @@ impl Expr {
             UnOpKind::Ceil => res.as_float().ceil().into(),
             UnOpKind::Round => res.as_float().round().into(),
         })
+    }
+}
+
+/// Sign of `f`: `-1.0`, `0.0` or `1.0`. NaN stays NaN.
+///
+/// `f64::signum` can't be used here, it maps zero to `1.0` or `-1.0` while `SGN(0)` is `0`.
+fn float_sgn(f: f64) -> f64 {
+    if f > 0.0 {
+        1.0
+    } else if f < 0.0 {
+        -1.0
+    } else {
+        f
     }
 }
 
